@@ -370,7 +370,7 @@ impl NfaBuilder {
                 }
                 (min, None) => {
                     if self.expand_zero_or_more(&repetition.sub, next_state_id)? {
-                        self.expand_count(&repetition.sub, min, next_state_id)
+                        self.expand_count(&repetition.sub, min, self.nfa.last_state_id())
                     } else {
                         Ok(false)
                     }
